@@ -23,6 +23,7 @@ var (
 	_ CmapIter = (*cmap6Or10Iter)(nil)
 	_ CmapIter = (*cmap12Iter)(nil)
 	_ CmapIter = (*cmap13Iter)(nil)
+	_ CmapIter = (*remapedIter)(nil)
 )
 
 // CmapIter is an iterator over a Cmap.
@@ -612,12 +613,51 @@ func (t UnicodeVariations) GetGlyphVariant(r, selector rune) (GID, uint8) {
 	return 0, VariantNotFound
 }
 
-// Handle legacy font with remap
-// TODO: the Iter() and RuneRanges() method does not include the additional mapping
+// Handle legacy font with remap.
+// The Iter() methods include the additional mapping; RuneRanges() is not implemented.
+
+// remapedIter yields the content of the wrapped cmap, followed
+// by the runes added by the remapping
+type remapedIter struct {
+	CmapIter // for the wrapped cmap
+
+	extraRunes  []rune
+	extraGlyphs []GID
+	pos         int // in extraRunes
+}
+
+// newRemapedIter looks for the runes in [0, last] which are not mapped by [inner],
+// but are by [remaper]
+func newRemapedIter(remaper, inner Cmap, last rune) *remapedIter {
+	out := remapedIter{CmapIter: inner.Iter()}
+	for r := rune(0); r <= last; r++ {
+		if _, ok := inner.Lookup(r); ok { // already yielded by the wrapped iterator
+			continue
+		}
+		if g, ok := remaper.Lookup(r); ok {
+			out.extraRunes = append(out.extraRunes, r)
+			out.extraGlyphs = append(out.extraGlyphs, g)
+		}
+	}
+	return &out
+}
+
+func (it *remapedIter) Next() bool { return it.CmapIter.Next() || it.pos < len(it.extraRunes) }
+
+func (it *remapedIter) Char() (rune, GID) {
+	if it.CmapIter.Next() {
+		return it.CmapIter.Char()
+	}
+	r, g := it.extraRunes[it.pos], it.extraGlyphs[it.pos]
+	it.pos++
+	return r, g
+}
 
 type remaperSymbol struct {
 	Cmap
 }
+
+func (rs remaperSymbol) Iter() CmapIter { return newRemapedIter(rs, rs.Cmap, 0xFF) }
 
 func (rs remaperSymbol) Lookup(r rune) (GID, bool) {
 	// try without map first
@@ -642,6 +682,9 @@ type remaperPUASimp struct {
 	Cmap
 }
 
+// the runes remapped by arabicPUASimpMap and arabicPUATradMap are in the BMP
+func (rs remaperPUASimp) Iter() CmapIter { return newRemapedIter(rs, rs.Cmap, 0xFFFF) }
+
 func (rs remaperPUASimp) Lookup(r rune) (GID, bool) {
 	// try without map first
 	if g, ok := rs.Cmap.Lookup(r); ok {
@@ -658,6 +701,8 @@ func (rs remaperPUASimp) Lookup(r rune) (GID, bool) {
 type remaperPUATrad struct {
 	Cmap
 }
+
+func (rs remaperPUATrad) Iter() CmapIter { return newRemapedIter(rs, rs.Cmap, 0xFFFF) }
 
 func (rs remaperPUATrad) Lookup(r rune) (GID, bool) {
 	// try without map first
